@@ -105,6 +105,10 @@ func (s *Spec) ValidateJumpIf(specs map[string]filters.Spec) {
 	for i := len(s.Flow) - 1; i >= 0; i-- {
 		node := &s.Flow[i]
 		if node.FilterName == BuiltInFilterEnd {
+			// an aliased END node is matched by jump targets at runtime too
+			if node.FilterAlias != "" {
+				validTargets[node.FilterAlias]++
+			}
 			continue
 		}
 		spec := specs[node.FilterName]
